@@ -93,7 +93,7 @@ func Check(in Input, wd *evid.Watchdog) (res Result, f *evid.Failure) {
 		}
 	}
 	// ---- pooled API: fresh, recycled, recycled after SetMessage with nil / empty options
-	for _, mode := range []string{"fresh", "recycled", "setmessage-nil", "setmessage-empty"} {
+	for _, mode := range []string{"fresh", "recycled", "setmessage-nil", "setmessage-empty", "prepared"} {
 		if f := pooled(in, mode, cd, data, ref, refErr, refUsed); f != nil {
 			return res, f
 		}
@@ -224,6 +224,15 @@ func pooled(in Input, mode string, cd coderI, data []byte, ref refcodec.Msg, ref
 		_, _ = first.UnmarshalWithDecoder(udpcoder.DefaultCoder, prev)
 		p.ReleaseMessage(first)
 		pm = p.AcquireMessage(context.Background())
+	case "prepared":
+		// entry points in another order: the destination was given a token, a code, a type and a
+		// message ID before the datagram is decoded into it (the library does so itself when it
+		// answers a duplicate from its response cache); the decoded message does not depend on them
+		pm = p.AcquireMessage(context.Background())
+		pm.SetToken(message.Token{0xde, 0xad, 0xbe, 0xef})
+		pm.SetCode(codes.Content)
+		pm.SetType(message.Confirmable)
+		pm.SetMessageID(7)
 	case "setmessage-nil", "setmessage-empty":
 		first := p.AcquireMessage(context.Background())
 		m := message.Message{Code: codes.Content, Token: message.Token{1}, Payload: []byte("app")}
